@@ -164,6 +164,7 @@ Definition scalar_sobj (t : sty') : sobj schema :=
       | Some n => mkSObj None None None None None None None None None None (Some (ref_name n)) []
       | None => with_enum (map JStr vs) (so_base (Some TString))
       end
+  | TUuid => with_format (bs "uuid") (so_base (Some TString))
   end.
 
 (* serde_json::to_value of the default value *)
@@ -174,6 +175,7 @@ Definition json_of_sval (v : sval) : json :=
   | VChar c => JStr (utf8_encode c)
   | VInt z => JNum (NInt z)
   | VEnum n => JStr n
+  | VUuid b => JStr (print_uuid b)
   end.
 
 Definition NULLABLE_EXT : list (str * json) := [(s_nullable, JBool true)].
@@ -438,7 +440,7 @@ Definition serde_view (fs : pspec) : spec := map (fun l => (lf_name l, leaf_kind
 (* what serde's ContentDeserializer can turn a buffered string into *)
 Definition flat_deliverable (t : sty) : bool :=
   match t with
-  | TStr | TChar | TEnum _ => true
+  | TStr | TChar | TEnum _ | TUuid => true
   | TBool | TInt _ _ => false
   end.
 
@@ -485,8 +487,18 @@ Definition int_format_range (f : str) : option (Z * Z) :=
   else None.
 
 (* interpretation of [format] used when documents are replayed: integer
-   formats bound the value; every other format is an annotation *)
+   formats bound the value; "uuid" (schemars' uuid1 impl) is the RFC 4122 text
+   form, 8-4-4-4-12 hexadecimal digits of either case; every other format is
+   an annotation *)
+Definition S_UUID : str := bs "uuid".
+
 Definition fmt_doc (f : str) (j : json) : bool :=
+  if str_eqb f S_UUID then
+    match j with
+    | JStr s => match parse_uuid_hyphenated s with Some _ => true | None => false end
+    | _ => true
+    end
+  else
   match int_format_range f, j with
   | Some (lo, hi), JNum n =>
       let x := num_q n in q_leb (q_of_Z lo) x && q_leb x (q_of_Z hi)
